@@ -5,7 +5,8 @@ from __future__ import annotations
 import ast
 import itertools
 
-from ..cfg import CFG
+from ..astutil import inside
+from ..cfg import CFG, cond_strings
 from ..core import AnalysisError
 from ..defuse import DefUse, Terms, show
 
@@ -129,25 +130,36 @@ def _get_next_row(ctx, f):
     ctx.require(isinstance(loop.target, ast.Tuple) and len(
         loop.target.elts) == 2, f"{f.qual}: loop target is not (key, row)")
     v_key, v_row = (e.id for e in loop.target.elts)
-    # the selection 'if'
-    ifs = [s for s in loop.body if isinstance(s, ast.If)]
-    ctx.require(len(ifs) == 1 and not ifs[0].orelse,
-                f"{f.qual}: expected a single replacement 'if' in the loop")
-    sel = ifs[0]
-    assigned = {}
-    for s in sel.body:
-        ctx.require(isinstance(s, ast.Assign) and isinstance(
-            s.targets[0], ast.Name), f"{f.qual}: unexpected statement in "
-            "the replacement branch")
-        assigned[s.targets[0].id] = s.value
-    # which names hold max score / key / row: by what is assigned
-    score_names = [s.targets[0].id for s in loop.body
-                   if isinstance(s, ast.Assign)
-                   and isinstance(s.targets[0], ast.Name)]
-    ctx.require(len(score_names) == 1, f"{f.qual}: candidate score "
+    # assignments in the loop, grouped by the conditions (decided inside the
+    # loop) under which they run: early-continue, nested and negated
+    # spellings of the replacement test are equivalent here
+    tests_in_loop = [n for n in ast.walk(loop) if isinstance(n, ast.If)]
+    uncond, cond = [], []
+    for s in ast.walk(loop):
+        if not (isinstance(s, ast.Assign) and len(s.targets) == 1
+                and isinstance(s.targets[0], ast.Name)):
+            continue
+        nc = [(t, o) for t, o in cfg.necessary_conditions(s)
+              if inside(t, loop)]
+        (cond if nc else uncond).append((s, nc))
+    ctx.require(len(uncond) == 1, f"{f.qual}: candidate score "
                 "assignment not found")
-    v_score = score_names[0]
-    sc_t = T.of([s for s in loop.body if isinstance(s, ast.Assign)][0].value)
+    ctx.require(cond, f"{f.qual}: no conditional replacement in the loop")
+    sel_conds = cond[0][1]
+    ctx.require(all([(id(t), o) for t, o in nc]
+                    == [(id(t), o) for t, o in sel_conds]
+                    for _s, nc in cond)
+                and len(sel_conds) == len(tests_in_loop),
+                f"{f.qual}: the replacement assignments do not share one "
+                "condition; rule C14a needs re-reading")
+    sel = cfg.stmt_of(sel_conds[0][0])
+    assigned = {}
+    for s, _nc in cond:
+        ctx.require(s.targets[0].id not in assigned, f"{f.qual}: "
+                    f"{s.targets[0].id} replaced twice")
+        assigned[s.targets[0].id] = s.value
+    v_score = uncond[0][0].targets[0].id
+    sc_t = T.of(uncond[0][0].value)
     ok_sc = show(sc_t) in (f"float({v_row_term(T, loop)}[{p_col}])",) or \
         (sc_t[0] == "call" and sc_t[1] == "builtins.float"
          and sc_t[2] and sc_t[2][0][0] == "sub"
@@ -167,7 +179,7 @@ def _get_next_row(ctx, f):
     ctx.check(ok_together, "C14a-selected-together", f,
               "maximum score, its key and its row are recorded together "
               "from the same head",
-              f"the replacement branch assigns {sorted(assigned)} from "
+              f"the replacement assigns {sorted(assigned)} from "
               f"{[ast.unparse(v) for v in assigned.values()]}", node=sel)
     if not ok_together:
         return
@@ -179,7 +191,8 @@ def _get_next_row(ctx, f):
             env = {n_score: cur, v_score: cand, n_key: None, n_row: None,
                    v_key: 0, v_row: {}}
             try:
-                got = bool(_eval_guard(sel.test, env))
+                got = all(bool(_eval_guard(t, env)) == o
+                          for t, o in sel_conds)
             except TypeError:
                 got = "TypeError"
             want_strict = cur is None or cur < cand
@@ -194,7 +207,7 @@ def _get_next_row(ctx, f):
     ctx.check(strict_ok or weak_ok, "C14a-selection-guard", f,
               "head replaces the current maximum iff there is none yet or "
               "its score is larger (24 valuations incl. 0.0 and negatives)",
-              f"guard '{ast.unparse(sel.test)}' deviates, e.g. {bad[:3]}",
+              f"guard '{' and '.join(cond_strings(t, o)[0] for t, o in sel_conds)}' deviates, e.g. {bad[:3]}",
               node=sel, detail=f"{len(rows)} valuations")
     # initial values None
     for nm in (n_score, n_key, n_row):
